@@ -168,6 +168,7 @@ func ruleSeekOrientation(c *Ctx, want map[string]bool) {
 	if want == nil || want["pkg/core/mpt"] {
 		c.Floor("start-comparison branches in package mpt (Find, TrieStore.Seek, traverse)", counts["branch:pkg/core/mpt"], 3)
 		c.Floor("direction-ordered child iterations in package mpt", counts["order:pkg/core/mpt"], 1)
+		c.Floor("kept-subtree start resets in package mpt (Find, TrieStore.Seek, traverse)", counts["consumed:pkg/core/mpt"], 3)
 	}
 	if want == nil || want["pkg/core/storage"] {
 		c.Floor("key filters in package storage", counts["filter:pkg/core/storage"], 4)
@@ -685,6 +686,191 @@ func (s *seekScan) scan() {
 	}
 	s.cmpSelector(nextKey)
 	s.rangeTranslation(nextKey)
+	s.startConsumed(baseDirs, nextKey)
+}
+
+// startConsumed: where a comparison with the start point decides that a subtree is kept (it lies wholly inside
+// the range), the start no longer applies inside that subtree: the start variable must be re-assigned before it
+// is handed to the scan of the subtree, otherwise keys of the kept subtree are compared with a start expressed
+// relative to another node. Decided on the CFG, path-sensitively over the finite rows (direction x sign): from
+// the first comparison block, each edge is followed with the rows under which it is taken; reaching a call that
+// receives the start variable with a non-empty row set and no assignment on the way is a violation.
+func (s *seekScan) startConsumed(dirs []bool, nextKey func(string) string) {
+	f := s.sf.cfg
+	type row struct {
+		dir  bool
+		sign int
+	}
+	type signBlock struct {
+		b *cfg.Block
+		c ast.Expr
+		v types.Object
+	}
+	var sbs []signBlock
+	isSign := map[*cfg.Block]*signBlock{}
+	for _, b := range f.G.Blocks {
+		if !b.Live {
+			continue
+		}
+		c := f.Cond(b)
+		if c == nil {
+			continue
+		}
+		ev := &orientEval{s: s}
+		ev.eval(c, &orientEnv{free: map[string]bool{}, und: map[string]bool{}})
+		if !ev.sawSign {
+			continue
+		}
+		var v types.Object
+		ast.Inspect(c, func(n ast.Node) bool {
+			e, ok := n.(ast.Expr)
+			if !ok || v != nil {
+				return v == nil
+			}
+			if call, _ := ev.signSource(e); call != nil {
+				for _, a := range call.Args {
+					if id, ok := ast.Unparen(a).(*ast.Ident); ok && s.roles.mentionsStart(f, a) {
+						if vv, ok := f.Info.ObjectOf(id).(*types.Var); ok && !vv.IsField() {
+							v = vv
+						}
+					}
+				}
+			}
+			return true
+		})
+		if v == nil {
+			continue
+		}
+		sbs = append(sbs, signBlock{b, c, v})
+	}
+	for i := range sbs {
+		isSign[sbs[i].b] = &sbs[i]
+	}
+	assigns := func(n ast.Node, v types.Object) bool {
+		as, ok := n.(*ast.AssignStmt)
+		if !ok {
+			return false
+		}
+		for _, l := range as.Lhs {
+			if id, ok := ast.Unparen(l).(*ast.Ident); ok && f.Info.ObjectOf(id) == v {
+				return true
+			}
+		}
+		return false
+	}
+	consumes := func(n ast.Node, v types.Object) *ast.CallExpr {
+		var hit *ast.CallExpr
+		inspectNoLit(n, func(x ast.Node) bool {
+			call, ok := x.(*ast.CallExpr)
+			if !ok || hit != nil {
+				return hit == nil
+			}
+			fd := staticCalleeDecl(s.c.P, f.Info, call)
+			if fd == nil {
+				return true
+			}
+			for _, a := range call.Args {
+				if id, ok := ast.Unparen(a).(*ast.Ident); ok && f.Info.ObjectOf(id) == v {
+					hit = call
+				}
+			}
+			return true
+		})
+		return hit
+	}
+	for _, sb := range sbs {
+		// only the first comparison of a chain starts a walk
+		first := true
+		for _, o := range sbs {
+			if o.b != sb.b && o.v == sb.v {
+				if _, ok := f.reach([]*cfg.Block{o.b}, nil, nil)[sb.b]; ok {
+					if _, back := f.reach([]*cfg.Block{sb.b}, nil, nil)[o.b]; !back || o.b.Index < sb.b.Index {
+						first = false
+					}
+				}
+			}
+		}
+		if !first {
+			continue
+		}
+		var all []row
+		for _, d := range dirs {
+			all = append(all, row{d, -1}, row{d, 1})
+		}
+		type state struct {
+			b    *cfg.Block
+			mask int
+		}
+		seen := map[state]bool{}
+		var bad *ast.CallExpr
+		var badRows []row
+		nconsumer := 0
+		var walk func(b *cfg.Block, rows []row, fromCond bool)
+		split := func(sb2 *signBlock, rows []row) (t, fl []row) {
+			for _, r := range rows {
+				ev := &orientEval{s: s}
+				if ev.eval(sb2.c, &orientEnv{dir: r.dir, sign: r.sign, free: map[string]bool{}, und: map[string]bool{}}) {
+					t = append(t, r)
+				} else {
+					fl = append(fl, r)
+				}
+			}
+			return
+		}
+		maskOf := func(rows []row) int {
+			m := 0
+			for _, r := range rows {
+				bit := 0
+				if r.dir {
+					bit = 2
+				}
+				if r.sign > 0 {
+					bit++
+				}
+				m |= 1 << bit
+			}
+			return m
+		}
+		walk = func(b *cfg.Block, rows []row, fromCond bool) {
+			if len(rows) == 0 || bad != nil {
+				return
+			}
+			if !fromCond {
+				st := state{b, maskOf(rows)}
+				if seen[st] {
+					return
+				}
+				seen[st] = true
+				for _, n := range b.Nodes {
+					if call := consumes(n, sb.v); call != nil {
+						nconsumer++
+						// `v = g(v)` consumes and re-assigns at once: the callee sees the old value
+						bad, badRows = call, rows
+						return
+					}
+					if assigns(n, sb.v) {
+						return
+					}
+				}
+			}
+			if sb2 := isSign[b]; sb2 != nil && sb2.v == sb.v && len(b.Succs) == 2 {
+				t, fl := split(sb2, rows)
+				walk(b.Succs[0], t, false)
+				walk(b.Succs[1], fl, false)
+				return
+			}
+			for _, nx := range b.Succs {
+				walk(nx, rows, false)
+			}
+		}
+		walk(sb.b, all, true)
+		key := nextKey("start-consumed")
+		if bad != nil {
+			s.report("consumed", key, bad.Pos(), false, "", fmt.Sprintf("after the comparison with the start at %s decides (rows %v: direction backward?/sign of node-vs-start) that the subtree is kept, %s still receives the start variable %s unchanged: the keys of a subtree lying wholly inside the range are then compared with a start that is relative to another node, and part of them is skipped", s.c.P.Pos(sb.c.Pos()), badRows, trunc(types.ExprString(bad.Fun), 40), sb.v.Name()))
+		} else {
+			s.report("consumed", key, sb.c.Pos(), true, fmt.Sprintf("on every feasible path (rows: %d directions x {before, after}) from the comparison to a scan that takes %s, the start is re-assigned or the function left", len(dirs), sb.v.Name()), "")
+		}
+	}
 }
 
 func (s *seekScan) report(kind, key string, pos token.Pos, ok bool, okMsg, badMsg string) {
